@@ -134,6 +134,28 @@ func (p c05) Gen(r *simhook.Rand, tier string, idx int) harness.Scenario {
 		return sc
 	}
 	if !sc.Headerless && r.Chance(1, 10) {
+		// class "slow-receiver": a client stops reading for several idle-timeout periods in the middle of a download
+		// that is far larger than the socket buffers; the backend keeps sending.  The relay's write blocks for that
+		// long; nothing was idle - data was waiting the whole time - so the download must arrive complete.
+		sc.Class = "slow-receiver"
+		T := []int{1000, 2500, 6000}[r.Intn(3)]
+		sc.Env.Backends = 1 + r.Intn(2)
+		sc.Env.IdleMs = T
+		sc.Env.BufCap = []int{1024, 4096, 16384}[r.Intn(3)]
+		sc.Env.ConnLimit = 0
+		sc.SlackMs = []int{0, 1, T / 16}[r.Intn(3)]
+		n := 1 + r.Intn(2)
+		for i := 0; i < n; i++ {
+			chunk := 500 + r.Intn(3000)
+			down := StreamSpec{Len: chunk * (60 + r.Intn(100)), Chunks: []int{chunk}, GapMs: []int{T / 20}}
+			up := StreamSpec{Len: 1 + r.Intn(200), Finish: "none"}
+			sc.Conns = append(sc.Conns, TCPConn{Name: fmt.Sprintf("c%d", i), C2S: up, S2C: down})
+		}
+		sc.Faults = []TCPFault{{Kind: "receiver-pause", Node: 0, AtMs: T/2 + r.Intn(T), ForMs: T*2 + r.Intn(T*3)}}
+		sc.HorizonS = 900
+		return sc
+	}
+	if !sc.Headerless && r.Chance(1, 10) {
 		// class "members-reannounced": discovery announces endpoints that are members already (same address, same type,
 		// fresh objects - what an "endpoints added" update that repeats known ones looks like) while paced streams to
 		// them are under way.  Nothing about the membership changes, so no established relay may notice.
